@@ -363,8 +363,13 @@ func (mw *msgWriter) addFiles(files []*File, isAttachment bool) {
 			}
 		}
 		if mw.depth == 0 {
-			for header, val := range file.Header {
-				mw.writeHeader(Header(header), val...)
+			headers := make([]string, 0, len(file.Header))
+			for header := range file.Header {
+				headers = append(headers, header)
+			}
+			sort.Strings(headers)
+			for _, header := range headers {
+				mw.writeHeader(Header(header), file.Header[header]...)
 			}
 			mw.writeString(SingleNewLine)
 		}
